@@ -5527,3 +5527,87 @@ func E11JunctionPairing(c *core.Ctx, r *core.Report) {
 	r.Count("E11.junction-relations", n)
 	r.Floor("E11.junction-relations", 4)
 }
+
+// E11BreakSums: every breakpoint takes the sums after the break from computeSum.
+func E11BreakSums(c *core.Ctx, r *core.Report) {
+	r.Rule("E11.break-sums", "text/linebreak.go: a Breakpoint records where the next line starts (W, Y, Z: the sums after the break, past the glue the break swallows). Every Breakpoint literal that is created for a position inside the paragraph (it has a parent) sets W, Y and Z from the three results of linebreaker.computeSum, like the regular break in mainLoop does (sibling agreement); the running totals lb.W/lb.Y/lb.Z are those *at* the item, and after a glue item already include it. The break created on overflow used the running totals: the overflowing line was reported with the break glue and the next line with the discarded glue")
+	p := c.MustPkg("text")
+	info := p.TypesInfo
+	n := 0
+	for _, fd := range core.AllFuncDecls(p) {
+		if fd.Body == nil || strings.HasSuffix(c.Fset.Position(fd.Pos()).Filename, "_test.go") {
+			continue
+		}
+		fname := "text." + core.FuncName(fd)
+		// locals assigned from computeSum
+		sums := map[types.Object]int{}
+		ast.Inspect(fd.Body, func(m ast.Node) bool {
+			as, ok := m.(*ast.AssignStmt)
+			if !ok || len(as.Lhs) != 3 || len(as.Rhs) != 1 {
+				return true
+			}
+			call, ok := as.Rhs[0].(*ast.CallExpr)
+			if !ok {
+				return true
+			}
+			if f := core.CalleeOf(info, call); f == nil || f.Name() != "computeSum" {
+				return true
+			}
+			for i, l := range as.Lhs {
+				if id, ok := l.(*ast.Ident); ok {
+					sums[core.ObjOf(info, id)] = i
+				}
+			}
+			return true
+		})
+		ord := 0
+		ast.Inspect(fd.Body, func(m ast.Node) bool {
+			cl, ok := m.(*ast.CompositeLit)
+			if !ok {
+				return true
+			}
+			if t := info.TypeOf(cl); t == nil || !strings.HasSuffix(t.String(), "text.Breakpoint") {
+				return true
+			}
+			fields := map[string]ast.Expr{}
+			for _, el := range cl.Elts {
+				if kv, ok := el.(*ast.KeyValueExpr); ok {
+					if id, ok := kv.Key.(*ast.Ident); ok {
+						fields[id.Name] = kv.Value
+					}
+				}
+			}
+			if _, hasParent := fields["parent"]; !hasParent {
+				return true
+			}
+			n++
+			ord++
+			key := fmt.Sprintf("%s|breakpoint #%d takes W, Y, Z from computeSum", fname, ord)
+			bad := ""
+			for i, f := range []string{"W", "Y", "Z"} {
+				v, ok := fields[f]
+				if !ok {
+					bad = "field " + f + " is not set"
+					break
+				}
+				id, isId := core.Unparen(v).(*ast.Ident)
+				if !isId {
+					bad = fmt.Sprintf("%s is `%s`, not a result of computeSum", f, c.Src(v))
+					break
+				}
+				if k, isSum := sums[core.ObjOf(info, id)]; !isSum || k != i {
+					bad = fmt.Sprintf("%s is `%s`, not result %d of computeSum", f, c.Src(v), i+1)
+					break
+				}
+			}
+			if bad == "" {
+				r.OK("E11.break-sums", key, c.Pos(cl.Pos()), "")
+			} else {
+				r.Fail("E11.break-sums", key, c.Pos(cl.Pos()), bad+": the next line is measured from the wrong position (the glue at or after the break is counted into a line)")
+			}
+			return true
+		})
+	}
+	r.Count("E11.breakpoints-with-parent", n)
+	r.Floor("E11.breakpoints-with-parent", 2)
+}
